@@ -9,6 +9,7 @@ temp file (`C17_error_unchanged`).  Generic over any program with the discipline
 programs have it (`C16.gen_*`).
 -/
 import Octave.Lemmas.Run
+import Octave.Lemmas.Sched
 import Octave.Spec.Register
 import Octave.Lemmas.Examples
 import Octave.Gen.WriteOps
@@ -319,11 +320,12 @@ def sysAB : Sys :=
    fsEx⟩
 
 /-- … (re-read_A) (re-read_B) replace_A replace_B : A runs alone up to (not including) its `os.replace`, then B
-does the same, then A replaces, then B replaces.  The positions are computed from the programs (the
+does the same, then A runs to completion (it replaces), then B runs to completion (it replaces).  The positions are computed from the programs (the
 fault-free solo trace), not pinned. -/
 def scheduleF27 : List Nat :=
   List.replicate (Ex.idx (Ex.traceOf (exec Hid Gen.writeToolStmt callA {} fsEx)) (.replace .temp .target)) 0 ++
-  List.replicate (Ex.idx (Ex.traceOf (exec Hid Gen.writeToolStmt callB {} fsEx)) (.replace .temp .target)) 1 ++ [0, 1]
+  List.replicate (Ex.idx (Ex.traceOf (exec Hid Gen.writeToolStmt callB {} fsEx)) (.replace .temp .target)) 1 ++
+  List.replicate 40 0 ++ List.replicate 40 1
 
 /-- **C17_two_writers_negative (F27).**  There is a schedule of the two generated programs in which both
 writers, holding the same base_hash, answer success; the file ends up with B's text and A's update is
@@ -337,6 +339,89 @@ theorem C17_two_writers_negative :
 /-- Non-vacuity of the positive side: when B starts after A has finished, B is refused with E_HASH. -/
 example : ((runSched Hid (List.replicate 40 0 ++ List.replicate 40 1) sysAB).procs.map (fun p => p.result Hid))
     = [some (.ok "A".toList), some (.err .E_HASH)] := by decide
+
+/-! ### N writers whose [re-read, replace] windows do not overlap -/
+
+/-- N writers at the start of program `s`, with the ghosts of the instrumented semantics
+(Lemmas/Sched.lean): `installers` (who installed, newest first), `texts` (what was installed), and
+`overlap` — set when a writer's `os.replace` succeeds although somebody else installed after that
+writer's last successful re-read of the target (a writer that never re-read counts from version 0). -/
+def gInit (s : Stmt) (calls : List Call) (fs : Fs) : GSys :=
+  { procs := calls.map (fun c => { p := { call := c, pc := s.toProg c.params } }), fs := fs }
+
+theorem gInit_erase (s : Stmt) (calls : List Call) (fs : Fs) :
+    (gInit s calls fs).erase = ⟨calls.map (fun c => { call := c, pc := s.toProg c.params }), fs⟩ := by
+  simp [gInit, GSys.erase, List.map_map, Function.comp_def]
+
+/-- **C17_two_writers_partial** (N writers).  Writers running any program with the CAS discipline on one
+existing file, all holding the same base_hash `h`, pairwise distinct temp names.  In every schedule in
+which no writer's `os.replace` succeeds after somebody else installed since that writer's re-read
+(`overlap = false`: the [re-read, replace] windows do not overlap), and in which no installed text
+hashes to `h` again (no ABA; collision-freeness on the relevant texts, as a hypothesis), **at most one
+writer answers success** in the interleaved semantics `runSched`.
+Partial: the hypothesis `overlap = false` is exactly what F27 violates; without it the statement is
+false (`C17_two_writers_negative`). -/
+theorem C17_two_writers_partial (s : Stmt) (calls : List Call) (fs : Fs) (t : Path) (h : Hash) (sched : List Nat)
+    (hcalls : ∀ c ∈ calls, c.target = t ∧ WriterOK c ∧ c.baseHash = some h ∧ c.dry = false ∧
+        s.disciplined .c17 c.params = true)
+    (hdist : ∀ (i j : Nat) (ci cj : Call), i ≠ j → calls[i]? = some ci → calls[j]? = some cj → ci.tmpName ≠ cj.tmpName)
+    (hfile : TFile fs t)
+    (hno : (grun .c17 H t sched (gInit s calls fs)).overlap = false)
+    (haba : ∀ d ∈ (grun .c17 H t sched (gInit s calls fs)).texts, H d ≠ h) :
+    ∀ (i j : Nat) (pi pj : Proc), i ≠ j →
+      (runSched H sched ⟨calls.map (fun c => { call := c, pc := s.toProg c.params }), fs⟩).procs[i]? = some pi →
+      (runSched H sched ⟨calls.map (fun c => { call := c, pc := s.toProg c.params }), fs⟩).procs[j]? = some pj →
+      ¬ ((∃ hi, pi.result H = some (.ok hi)) ∧ (∃ hj, pj.result H = some (.ok hj))) := by
+  -- the invariant holds initially …
+  have h0 : GInv .c17 H t h (gInit s calls fs) := by
+    have look : ∀ (i : Nat) (gp : GProc), (gInit s calls fs).procs[i]? = some gp →
+        ∃ c, calls[i]? = some c ∧ gp = { p := { call := c, pc := s.toProg c.params } } := by
+      intro i gp hi
+      simp only [gInit, List.getElem?_map, Option.map_eq_some_iff] at hi
+      obtain ⟨c, e1, e2⟩ := hi
+      exact ⟨c, e1, e2.symm⟩
+    refine ⟨hfile, ?_, ?_, ?_, List.nodup_nil, ?_, ?_, ?_⟩
+    · intro i gp hi
+      obtain ⟨c, e1, e2⟩ := look i gp hi
+      obtain ⟨c1, c2, c3, c4, c5⟩ := hcalls c (List.mem_of_getElem? e1)
+      subst e2
+      exact ⟨c1, c2, c3, c4, c5, J.init H c fs, Nat.le_refl _, by intro _ hc; simp at hc⟩
+    · intro i j gi gj hij hi hj
+      obtain ⟨ci, e1, e2⟩ := look i gi hi
+      obtain ⟨cj, e3, e4⟩ := look j gj hj
+      subst e2 e4
+      exact hdist i j ci cj hij e1 e3
+    · intro i gp hi hins
+      obtain ⟨c, _, e2⟩ := look i gp hi
+      subst e2
+      simp at hins
+    · intro i hi; cases hi
+    · intro hv; simp [GSys.ver, gInit] at hv
+    · intro _ hv; simp [GSys.ver, gInit] at hv
+  -- … and along every schedule
+  have hG := GInv.run (S := .c17) (H := H) rfl sched _ h0
+  have her := grun_erase .c17 H t sched (gInit s calls fs)
+  rw [gInit_erase] at her
+  intro i j pi pj hij hi hj ⟨⟨hhi, ri⟩, ⟨hhj, rj⟩⟩
+  rw [← her] at hi hj
+  simp only [GSys.erase, List.getElem?_map, Option.map_eq_some_iff] at hi hj
+  obtain ⟨gi, gi1, gi2⟩ := hi
+  obtain ⟨gj, gj1, gj2⟩ := hj
+  subst gi2 gj2
+  have ii := hG.inst_mem i gi gi1 (result_ok_installed (hG.procs i gi gi1) hhi ri)
+  have ij := hG.inst_mem j gj gj1 (result_ok_installed (hG.procs j gj gj1) hhj rj)
+  have hv : (grun .c17 H t sched (gInit s calls fs)).ver ≥ 2 := two_le_length ii ij hij
+  obtain ⟨d, d1, d2⟩ := hG.aba hno hv
+  exact haba d d1 d2
+
+/-- Non-vacuity: for the two writers of F27 under the *serial* schedule the hypotheses hold (no overlap,
+the one installed text "A" does not hash to "old") — and indeed only A succeeds. -/
+example : (grun .c17 Hid [1, 2] (List.replicate 40 0 ++ List.replicate 40 1) (gInit Gen.writeToolStmt [callA, callB] fsEx)).overlap = false ∧
+    (grun .c17 Hid [1, 2] (List.replicate 40 0 ++ List.replicate 40 1) (gInit Gen.writeToolStmt [callA, callB] fsEx)).texts = ["A".toList] := by
+  decide
+
+/-- … and under the F27 schedule the hypothesis fails: `overlap = true`. -/
+example : (grun .c17 Hid [1, 2] scheduleF27 (gInit Gen.writeToolStmt [callA, callB] fsEx)).overlap = true := by decide
 
 /-! ### One event loop serves calls serially -/
 
